@@ -87,6 +87,17 @@ def judge(sims, net, opts, n, info, rec):
                 sa, sb = int(va.split(':')[0]), int(vb.split(':')[0])
                 stopping = any(t.truth.get(p, {}).get('state') == 40 for t in live)
                 if ra != rb:
+                    # the instances listed by one and not by the other
+                    liveidx = {t.k - 1 for t in live}
+                    diff = {int(ch) for ch in ra if ch.isdigit()} ^ {int(ch) for ch in rb if ch.isdigit()}
+                    def held40(x, d):
+                        app_ = x.context.applications.get('app'); pr_ = app_.processes.get(f'p{p}') if app_ else None
+                        return bool(pr_) and pr_.info_map.get(x.ids[d], {}).get('state') == 40
+                    if diff and all(d not in liveidx and (held40(a, d) or held40(b, d)) for d in diff):
+                        # root cause C11:lose-while-only-stopping: the STOPPING entry of a LOST instance stays listed
+                        other.append(('C12:listing-disagreement:lost-instance-listed-while-stopping',
+                                      f'instances {a.k - 1} and {b.k - 1} list p{p} on [{ra}] and [{rb}]: a lost instance whose last report was STOPPING is still listed'))
+                        continue
                     other.append(('C12:listing-disagreement-while-stopping' if stopping else 'C12:listing-disagreement',
                                   f'instances {a.k - 1} and {b.k - 1} (same instances seen RUNNING, true views) list p{p} on [{ra}] and [{rb}]'))
                 elif (sa in (10, 20, 30)) != (sb in (10, 20, 30)):
@@ -176,6 +187,18 @@ def run(chk):
     for f in sorted(os.listdir(cdir)) if os.path.isdir(cdir) else []:
         if not f.endswith('.json'): continue
         r = json.load(open(os.path.join(cdir, f)))
+        if 'script' not in r and 'schedule_seed' in r:
+            rec0 = Recorder()
+            sims0, net0, opts0, n0, info0 = run_schedule(r['schedule_seed'], rec0, **(r.get('kwargs') or {}))
+            extra0 = judge(sims0, net0, opts0, n0, info0, rec0)
+            model0 = chk.driver('drv_net', rec0.lines)
+            diff = next((k for k, (o, m) in enumerate(zip(rec0.obs, model0)) if o != m.split('|')[0].strip()), None)
+            ncorpus += 1
+            if diff is not None: chk.disagree('Net', {'corpus': f, 'step': diff, 'impl': rec0.obs[diff], 'model': model0[diff]})
+            sigs0 = signatures(dict(extra0).get('stale', []), fates_of(model0, rec0.lines))
+            for sig, what in dict(extra0).get('other', []): sigs0.setdefault(sig, what)
+            for sig, what in sigs0.items(): chk.reject(sig, what, {'corpus': f'corpus/C12/{f}', 'how': f'./check C12 --replay corpus/C12/{f}'})
+            continue
         if 'script' not in r: continue
         per = {int(k): v for k, v in r['per'].items()}
         programs = (r['programs'][0], {int(k): v for k, v in r['programs'][1].items()})
@@ -191,10 +214,12 @@ def run(chk):
                   'changes at any time, crashes, restarts (also faster than detection), cuts, heals, held proxies; then all cuts healed, 10 quiet '
                   'ticks and a recorded drain; non-trivial = at least 5 process events and one crash / restart / cut / heal; distinct = schedule seed',
                   quick_cases=70, thorough_cases=1200,
-                  sched_kwargs={'quiet_ticks': 10, 'nmax': 4, 'heal_at_end': True, 'procs': True, 'rpc_names': ('end_sync',)},
+                  sched_kwargs={'quiet_ticks': 10, 'nmax': 4, 'heal_at_end': True, 'procs': True, 'rpc_names': ('end_sync',), 'removals': False},
                   extra_judge=j, post_judge=post_judge)
     chk.coverage['schedules_judged_at_quiescence'] = judged[0]; chk.coverage['corpus_scripts_replayed'] = ncorpus
-    chk.assumptions += ['applications are unmanaged (no rules file): the FSM is not influenced by the processes; no start / stop request',
+    chk.assumptions += ['programs are not removed from a Supervisor configuration in these schedules (the ghost attribution does not follow PROCESS_REMOVED publications; '
+                        'removals are exercised by the process streams of ./check C13 and ./check C16)',
+                        'applications are unmanaged (no rules file): the FSM is not influenced by the processes; no start / stop request',
                         'the truth of an instance is the table its (simulated) Supervisor holds; a Supervisor restart resets it without events']
 
 
@@ -216,5 +241,7 @@ def replay(chk, path):
     diff = next((k for k, (o, m) in enumerate(zip(rec.obs, model)) if o != m.split('|')[0].strip()), None)
     if diff is not None: chk.disagree('Net', {'step': diff, 'impl': rec.obs[diff], 'model': model[diff]})
     stale = dict(extra).get('stale', []) if extra else []
-    for sig, what in signatures(stale, fates_of(model, rec.lines)).items(): chk.reject(sig, what, {'schedule_seed': r['schedule_seed']})
+    sigs = signatures(stale, fates_of(model, rec.lines))
+    for sig, what in (dict(extra).get('other', []) if extra else []): sigs.setdefault(sig, what)
+    for sig, what in sigs.items(): chk.reject(sig, what, {'schedule_seed': r['schedule_seed']})
     chk.coverage.update({'evaluations': 1, 'distinct_nontrivial': 0, 'rule': 'replay of one schedule', 'samples': [r['schedule_seed']]})
